@@ -33,6 +33,8 @@ func main() {
 		os.Exit(cmdVC(os.Args[2:]))
 	case "list":
 		os.Exit(cmdList(os.Args[2:]))
+	case "axioms":
+		os.Exit(cmdAxioms(os.Args[2:]))
 	case "gen-accept":
 		os.Exit(cmdGenAccept(os.Args[2:]))
 	case "gen-typeinv":
@@ -382,6 +384,35 @@ func cmdList(args []string) int {
 	for _, k := range keys {
 		c := e.contracts[k]
 		fmt.Printf("%-80s props=%v trusted=%v iface=%v\n", displayKey(k), c.Props, c.Trusted, c.IsIface)
+	}
+	return 0
+}
+
+// cmdAxioms prints the whole background theory (preamble, conditional axioms, every spec function and axiom of the
+// contract files) as one SMT-LIB text; selftest/axioms.py adds ground terms and checks that no solver refutes it
+func cmdAxioms(args []string) int {
+	e, err := loadEngine(repoDir(), filepath.Join(verifDir, "spec", "trusted"))
+	if err != nil {
+		fmt.Fprintln(os.Stderr, err)
+		return 2
+	}
+	fx := &FnExec{e: e, c: newCtx()}
+	for _, sd := range e.cs.Specs {
+		switch sd.Ret {
+		case "Int", "Bool", "Str", "Real":
+		default:
+			if !strings.HasPrefix(sd.Ret, "(Array ") {
+				continue // Go-typed result: resolved per use
+			}
+		}
+		fx.useSpec(sd)
+	}
+	fmt.Print("(set-logic ALL)\n" + smtPreamble)
+	for _, ax := range condAxioms {
+		fmt.Print(ax.text)
+	}
+	for _, it := range fx.c.items {
+		fmt.Println(it)
 	}
 	return 0
 }
